@@ -746,7 +746,13 @@ def run(ctx):
         if last["status"] == "ok" and res["status"] == "ok":
             first = sorted(tuple(pid(q)) for q in last["after"]["F"] if any(c15.pid(q) == c15.pid(x) for x in last["after"]["touched"]))
             second = sorted({tuple(o[-1]) for o in res["ops"]} - {tuple(o[1]) for o in res["ops"] if o[0] == "replace"})
-            if first != second:
+            if first != second and hist and sorted(("vdb" if x[0] == "vdb" else "src", x[1]) for x in first) == \
+                    sorted(("vdb" if x[0] == "vdb" else "src", x[1]) for x in second):
+                # same packages, another supplying repository for an equal-version twin: the per-repository caching iterators are shared
+                # between nested lookups, so which twin is offered depends on what was looked up before (observation in notes/C16.md;
+                # the property's policy speaks of versions and of the installed instance, both unchanged)
+                ctx.count("history_changes_supplying_twin_only")
+            elif first != second:
                 ctx.violation(case, f"{what}: {first} vs {second}" + (f"; the fresh plan holds clauses nothing in it satisfies: {um}" if fnd else ""), finding=fnd)
         elif last["status"] != res["status"]:
             ctx.violation(case, f"{what}: {last['status']} vs {res['status']}" + (f"; the fresh plan holds clauses nothing in it satisfies: {um}" if fnd else ""), finding=fnd)
